@@ -28,12 +28,12 @@ Theorem C12_no_panic : forall evs,
 Proof. exact run_no_panic. Qed.
 
 Example C12_stray_replies_are_dropped :
-  trace [EReq 1 120 true;
+  trace [EReq 1 120; EHand; EWrote;
          EResp 65535 {| r_type := 111; r_id := 1 |};     (* NOTAG *)
          EResp 40000 {| r_type := 121; r_id := 2 |};     (* never issued *)
          EResp 1 {| r_type := 121; r_id := 3 |};
          EResp 1 {| r_type := 121; r_id := 4 |};         (* repeated *)
-         EReq 2 116 true; EResp 2 {| r_type := 117; r_id := 5 |}]
+         EReq 2 116; EHand; EWrote; EResp 2 {| r_type := 117; r_id := 5 |}]
   = [OFrame 1 1 120; ODeliver 1 {| r_type := 121; r_id := 3 |};
      OFrame 2 2 116; ODeliver 2 {| r_type := 117; r_id := 5 |}].
 Proof. vm_compute. reflexivity. Qed.
@@ -98,8 +98,8 @@ Theorem C12_after_close_later : forall own owner,
 Proof. exact send_first_closed. Qed.
 
 Example C12_after_close_nonvacuous :
-  let '(st, tr) := run [EReq 1 120 true; EReq 2 116 true; EReadFatal; EExit] in
-  h_closed st = true /\ h_running st = false /\ tr = [OFrame 1 1 120; OFrame 2 2 116; OClosed] /\
+  let '(st, tr) := run [EReq 1 120; EHand; EWrote; EReq 2 116; EReadFatal; EExit] in
+  h_closed st = true /\ h_running st = false /\ tr = [OFrame 1 1 120; OClosed] /\
   send_wait (h_closed st) false (err_slot tr 1) (resp_slot tr 1) = [SErrClosed] /\
   send_first (h_closed st) false (h_running st) = [Some SErrClosed].
 Proof. vm_compute. auto 6. Qed.
@@ -116,11 +116,16 @@ Theorem C12_own_ctx_invisible : forall st c, hstep st (ECancel c) = (st, []).
 Proof. exact cancel_is_invisible. Qed.
 
 (* 5. the owner loop never blocks handing something to a call: over ALL event
-   lists each call gets at most one item, and both its channels have capacity 1 *)
+   lists each call gets at most one reply and at most one error, and each of
+   its two channels has capacity 1 *)
 Theorem C12_owner_never_blocks_on_delivery : forall evs,
   List.NoDup (req_calls evs) ->
-  List.NoDup (dcalls (trace evs)) /\ response_chan_cap = 1 /\ err_chan_cap = 1.
-Proof. intros evs H. split; [exact (delivered_once evs H) | exact src_chan_caps]. Qed.
+  List.NoDup (rcalls (trace evs)) /\ List.NoDup (ecalls (trace evs)) /\
+  response_chan_cap = 1 /\ err_chan_cap = 1.
+Proof.
+  intros evs H. destruct (delivered_once evs H) as [Hr He]. destruct src_chan_caps as [Hc1 Hc2].
+  repeat split; assumption.
+Qed.
 
 (* 6. a call is refused a tag only when 65535 tags are outstanding *)
 Theorem C12_refused_only_when_exhausted : forall (m : tagmap) h,
